@@ -120,8 +120,50 @@ def main(what, args):
         return determinism(args)
     if what == 'selftest-mutants':
         return mutants(args)
+    if what == 'selftest-seeded':
+        return seeded(args)
     if what == 'selftest-sockmodel':
         from . import simsock
         return simsock.validate_against_kernel()
     print('unknown selftest %s' % what)
     return 2
+
+
+def seeded(args):
+    """Regression over seeded/*: every change recorded as CAUGHT by a check must still be caught."""
+    from . import seedtest
+    d = os.path.join(ROOT, 'seeded')
+    only = os.environ.get('VERIF_SEEDED')
+    rows = []
+    bad = []
+
+    def one(name):
+        mp = os.path.join(d, name, 'meta.json')
+        with open(mp) as f:
+            m = json.load(f)
+        want = [c for c, v in m.get('checks', {}).items() if v.startswith('CAUGHT')]
+        try:
+            sc = seedtest.scratch_with_patch(os.path.join(d, name, 'patch.diff'))
+        except RuntimeError as e:
+            return (name, 'PATCH-DOES-NOT-APPLY', str(e)[:100])
+        try:
+            res = []
+            for pid in want:
+                env = dict(os.environ, VERIF_REPO=sc)
+                r = subprocess.run([os.path.join(ROOT, 'check'), pid, '--no-corpus'] + (['--runs', str(args.runs)] if args.runs else []), capture_output=True, text=True, env=env, timeout=3600)
+                res.append((pid, {0: 'MISSED', 1: 'caught', 2: 'harness-error'}.get(r.returncode, '?')))
+            return (name, res, None)
+        finally:
+            shutil.rmtree(sc, True)
+
+    names = sorted(n for n in os.listdir(d) if os.path.exists(os.path.join(d, n, 'meta.json')))
+    if only:
+        names = [n for n in names if any(n.startswith(x) for x in only.split(','))]
+    with cf.ThreadPoolExecutor(max_workers=3) as ex:
+        for row in ex.map(one, names):
+            rows.append(row)
+            print(row)
+            if isinstance(row[1], str) or any(v != 'caught' for _, v in row[1]):
+                bad.append(row[0])
+    print('seeded self-test: %d changes, %d not (fully) caught: %s' % (len(rows), len(bad), bad))
+    return 0
